@@ -16,6 +16,7 @@ RULE = ("each case takes a structure (repository proteins with their ligands and
         "structure has >= 3 titratable groups with >= 1 hydrogen-bond determinant; distinct = distinct "
         "(structure digest, pose)."
         " Sweeps also require the disulfide itself (both cysteines bridged) at every offset.")
+RULE = RULE + ' Round 8: the written determinant tables of the two frames list the same rows, and the same partners inside a cell, in the same order.'
 ASSUMPTIONS = ["hetero groups are excluded from tiers 2 and 3, as the statement says",
                "a group whose centre has a heavy atom within 1e-6 A^2 of a cut-off sphere is tie-sensitive and not judged"]
 TIMEOUT = {"quick": 2400, "thorough": 14400}
